@@ -8,7 +8,11 @@ from checks.parts import jmap, javasearch
 PARTS = [jmap, javasearch]
 
 def run(ctx):
-    common.run_parts(ctx, PARTS)     # calls jmap.prepare(src) first: Gen/JMap.lean is regenerated before the Lean build
+    # Gen/JMap.lean is regenerated from the tree's current sources before the Lean build (rewritten only on
+    # change).  run_parts calls the parts' prepare_src hook as well; calling it here keeps C12 independent of
+    # the hook's name.
+    jmap.prepare_src(common.SRC)
+    common.run_parts(ctx, PARTS)
 
 def replay(ctx, path):
     return common.show_replay(path)
